@@ -483,6 +483,9 @@ type vfFamBSec struct {
 	Exts   []vfFamBExt   `json:"exts,omitempty"`
 	SSRC   uint32        `json:"ssrc,omitempty"` // announce one source (a=ssrc cname/msid + a=msid)
 	NoBdl  bool          `json:"nobundle,omitempty"`
+	// BundleOnly: offered with port 0 and a=bundle-only and listed in BUNDLE (RFC 8843 §6; what
+	// Chrome's max-bundle policy emits for every section but the first). Offers only.
+	BundleOnly bool `json:"bundle_only,omitempty"`
 }
 
 type vfFamBSDP struct {
@@ -523,7 +526,7 @@ func (s vfFamBSDP) Render() string {
 	if s.Bundle {
 		var mids []string
 		for _, m := range s.Sections {
-			if m.Port != 0 && !m.NoBdl && !m.NoMid {
+			if (m.Port != 0 || m.BundleOnly) && !m.NoBdl && !m.NoMid {
 				mids = append(mids, m.Mid)
 			}
 		}
@@ -557,6 +560,9 @@ func (s vfFamBSDP) Render() string {
 		w("a=fingerprint:%s %s", hash, vfFamBFP)
 	}
 	for _, m := range s.Sections {
+		if m.BundleOnly {
+			m.Port = 0
+		}
 		switch m.Media {
 		case "application":
 			w("m=application %d UDP/DTLS/SCTP webrtc-datachannel", m.Port)
@@ -573,6 +579,9 @@ func (s vfFamBSDP) Render() string {
 			w("m=%s %d UDP/TLS/RTP/SAVPF %s", m.Media, m.Port, strings.Join(pts, " "))
 		}
 		w("c=IN IP4 0.0.0.0")
+		if m.BundleOnly {
+			w("a=bundle-only")
+		}
 		if !s.IceSession {
 			w("a=ice-ufrag:%s", ufrag)
 			w("a=ice-pwd:%s", pwd)
@@ -705,6 +714,7 @@ type vfFamBGenOpts struct {
 	RemapExt       bool     // allow extmap ids permuted / two-byte ids with allow-mixed
 	Unsupported    int      // 0 never, else 1-in-N sections carries only codecs nobody registers
 	PortZero       int      // 0 never, else 1-in-N sections offered with port 0
+	BundleOnly     int      // 0 never, else 1-in-N sections after the first are a=bundle-only (port 0, in BUNDLE)
 	SSRC           bool     // announce a source on sending sections
 }
 
@@ -835,6 +845,8 @@ func vfFamBGenSDP(r *rapid.T, o vfFamBGenOpts) vfFamBSDP {
 		sec := vfFamBSec{Media: media, Mid: mids[i], Port: 9, Setup: setup}
 		if o.PortZero > 0 && rapid.IntRange(1, o.PortZero).Draw(r, "portZero") == 1 {
 			sec.Port = 0
+		} else if o.BundleOnly > 0 && i > 0 && rapid.IntRange(1, o.BundleOnly).Draw(r, "bundleOnly") == 1 {
+			sec.BundleOnly = true // only legal behind a section that carries the BUNDLE address; fixed up by the caller
 		}
 		switch media {
 		case "application":
@@ -1743,6 +1755,15 @@ func vfFamBRunForeign(v *vfT, c vfFamBFCase, onDesc func(ev vfFamBFEvent)) {
 			}
 		}
 		started = true
+		vfFamBFixBundleOnly(&remote)
+		for _, sec := range remote.Sections {
+			switch {
+			case sec.BundleOnly:
+				v.Label("remote-offer:bundle-only-section")
+			case sec.Port == 0:
+				v.Label("remote-offer:rejected-section")
+			}
+		}
 		remote.SessVer++
 		text := remote.Render()
 		for _, s := range remote.Sections {
@@ -1773,6 +1794,26 @@ func vfFamBRunForeign(v *vfT, c vfFamBFCase, onDesc func(ev vfFamBFEvent)) {
 		v.Logf("step %d local answer  %s", step, vfFamBSummary(ans.SDP))
 		onDesc(vfFamBFEvent{Kind: "answer", Text: ans.SDP, RemoteOffer: text, PrevRemote: prevRemote, Step: step, OddMidSeen: odd, LocalAddAfter: addAfter})
 		prevRemote = text
+		if ad, e := vfFamBParse(ans.SDP); e == nil {
+			// later re-offers of the remote use the shared port for sections the answer accepted and
+			// port 0 (outside BUNDLE) for those it rejected
+			accepted := map[string]bool{}
+			for _, a := range ad.Sections {
+				if a.Port != 0 && a.Mid() != "" {
+					accepted[a.Mid()] = true
+				}
+			}
+			for k := range remote.Sections {
+				if remote.Sections[k].BundleOnly {
+					remote.Sections[k].BundleOnly = false
+					if accepted[remote.Sections[k].Mid] {
+						remote.Sections[k].Port = 9
+					} else {
+						remote.Sections[k].Port = 0
+					}
+				}
+			}
+		}
 		if err := pc.SetLocalDescription(ans); err != nil {
 			v.Label("set-local-answer-error")
 			v.Logf("step %d SetLocalDescription(answer): %v", step, err)
@@ -1840,6 +1881,12 @@ func vfFamBRunForeign(v *vfT, c vfFamBFCase, onDesc func(ev vfFamBFEvent)) {
 					// keep the remote's own view of a section it already has, only the direction follows the offer
 					m2 := remote.Sections[k]
 					m2.Setup = "active"
+					if m2.BundleOnly { // answers carry the shared port, never bundle-only
+						m2.BundleOnly, m2.Port = false, 9
+					}
+					if o.Port == 0 {
+						m2.Port = 0
+					}
 					if o.Media != "application" {
 						m2.Dir = m.Dir
 					}
@@ -1924,6 +1971,42 @@ func vfFamBGenForeign(r *rapid.T, dirFocus bool) vfFamBFCase {
 	nLater := rapid.IntRange(0, 3).Draw(r, "nLater")
 	all := vfFamBGenSDP(r, vfFamBGenOpts{MinSec: nInit + nLater, MaxSec: nInit + nLater, Medias: medias, MidStyles: styles,
 		NoPlanBMids: c.Sem == 1, RemapPT: true, RemapExt: true, Unsupported: 10, SSRC: true, AbsentDir: false})
+	if !dirFocus {
+		// port-zero shapes a sound remote produces: Chrome max-bundle (everything behind the first
+		// section bundle-only), single bundle-only sections, a rejected section (also last / with
+		// the highest mid)
+		switch rapid.IntRange(0, 7).Draw(r, "portZeroShape") {
+		case 0, 1:
+			for k := 1; k < len(all.Sections); k++ {
+				all.Sections[k].BundleOnly = true
+			}
+		case 2:
+			k := rapid.IntRange(0, len(all.Sections)-1).Draw(r, "bundleOnlyAt")
+			all.Sections[k].BundleOnly = k > 0
+		case 3:
+			if nInit > 1 {
+				all.Sections[nInit-1].Port = 0
+			}
+		case 4:
+			k := rapid.IntRange(0, len(all.Sections)-1).Draw(r, "rejectedAt")
+			if len(all.Sections) > 1 {
+				all.Sections[k].Port = 0
+			}
+		}
+		if rapid.IntRange(0, 2).Draw(r, "dataLast") == 0 && nInit > 1 {
+			// data section last among the initial ones (the usual browser layout)
+			for k := 0; k < nInit-1; k++ {
+				if all.Sections[k].Media == "application" {
+					all.Sections[k].Media, all.Sections[nInit-1].Media = all.Sections[nInit-1].Media, all.Sections[k].Media
+					all.Sections[k].Codecs, all.Sections[nInit-1].Codecs = all.Sections[nInit-1].Codecs, all.Sections[k].Codecs
+					all.Sections[k].Exts, all.Sections[nInit-1].Exts = all.Sections[nInit-1].Exts, all.Sections[k].Exts
+					all.Sections[k].Dir, all.Sections[nInit-1].Dir = all.Sections[nInit-1].Dir, all.Sections[k].Dir
+					all.Sections[k].SSRC, all.Sections[nInit-1].SSRC = all.Sections[nInit-1].SSRC, all.Sections[k].SSRC
+					break
+				}
+			}
+		}
+	}
 	c.Initial = all
 	c.Initial.Sections = append([]vfFamBSec{}, all.Sections[:nInit]...)
 	later := all.Sections[nInit:]
@@ -2165,4 +2248,25 @@ func vfFamBSummary(text string) string {
 		p = append(p, fmt.Sprintf("%s(mid=%q port=%d %s pts=%v)", s.Media, s.Mid(), s.Port, s.Dir(), s.Formats))
 	}
 	return strings.Join(p, " ") + fmt.Sprintf(" groups=%q", d.Groups)
+}
+
+// vfFamBFixBundleOnly keeps a=bundle-only sound: it needs a BUNDLE group and a section in
+// front of it that carries the BUNDLE address (non-zero port, bundled).
+func vfFamBFixBundleOnly(d *vfFamBSDP) {
+	haveAddress := false
+	for k := range d.Sections {
+		sec := &d.Sections[k]
+		if sec.BundleOnly && (!d.Bundle || !haveAddress || sec.NoBdl) {
+			sec.BundleOnly = false
+			if sec.Port == 0 {
+				sec.Port = 9
+			}
+		}
+		if sec.BundleOnly {
+			sec.Port = 0
+		}
+		if !sec.BundleOnly && sec.Port != 0 && !sec.NoBdl {
+			haveAddress = true
+		}
+	}
 }
